@@ -295,6 +295,18 @@ namespace bluetoe {
                 this->state( details::sm_pairing_state::lesc_pairing_random_exchanged );
 
                 std::copy( remote_nonce, remote_nonce + 16, remote_nonce_.begin() );
+                remote_dhkey_check_verified_ = false;
+            }
+
+            void remote_dhkey_check_verified()
+            {
+                assert( this->state() == details::sm_pairing_state::user_response_wait );
+                remote_dhkey_check_verified_ = true;
+            }
+
+            bool is_remote_dhkey_check_verified() const
+            {
+                return remote_dhkey_check_verified_;
             }
 
             void lesc_pairing_completed( const details::uint128_t& long_term_key )
@@ -360,6 +372,7 @@ namespace bluetoe {
             uint128_t                           local_nonce_;
             uint128_t                           remote_nonce_;
             io_capabilities_t                   remote_io_caps_;
+            bool                                remote_dhkey_check_verified_;
             uint128_t                           long_term_key_;
         };
 
@@ -507,6 +520,18 @@ namespace bluetoe {
                 this->state( details::sm_pairing_state::lesc_pairing_random_exchanged );
 
                 std::copy( remote_nonce, remote_nonce + 16, state_data_.lesc_state.remote_nonce_.begin() );
+                state_data_.lesc_state.remote_dhkey_check_verified_ = false;
+            }
+
+            void remote_dhkey_check_verified()
+            {
+                assert( this->state() == details::sm_pairing_state::user_response_wait );
+                state_data_.lesc_state.remote_dhkey_check_verified_ = true;
+            }
+
+            bool is_remote_dhkey_check_verified() const
+            {
+                return state_data_.lesc_state.remote_dhkey_check_verified_;
             }
 
             void pairing_requested( const io_capabilities_t& remote_io_caps )
@@ -598,6 +623,7 @@ namespace bluetoe {
                     uint128_t                   local_nonce_;
                     uint128_t                   remote_nonce_;
                     io_capabilities_t           remote_io_caps_;
+                    bool                        remote_dhkey_check_verified_;
                     enum lesc_pairing_algorithm algorithm;
                 }                                           lesc_state;
             } state_data_;
